@@ -289,7 +289,10 @@ def tempfile_decorator(func):
             except Exception as e:
                 raise e
             finally:
-                os.unlink(f.name)
+                # the file may already be gone (a failed overwrite removes it): do
+                # not let the cleanup mask the error that is propagating
+                if os.path.exists(f.name):
+                    os.unlink(f.name)
 
         else:
             # FIXME: it's a string, so it's probably a filename, but we should
